@@ -92,7 +92,7 @@ func writeSelfSignedCert(dir string) (string, string, error) {
 	return cp, kp, nil
 }
 
-func workerConf(p Ports, dir, cert, key string, moq bool) string {
+func workerConf(p Ports, dir, cert, key string, moq bool, tlsOn bool) string {
 	y := ""
 	add := func(f string, a ...any) { y += fmt.Sprintf(f, a...) + "\n" }
 	add("logLevel: error")
@@ -118,7 +118,11 @@ func workerConf(p Ports, dir, cert, key string, moq bool) string {
 	add("playbackAddress: %s", p.addr(pPlayback))
 	add("rtsp: yes")
 	add("rtspTransports: [udp, tcp]")
-	add("rtspEncryption: optional")
+	if tlsOn {
+		add("rtspEncryption: optional")
+	} else {
+		add("rtspEncryption: \"no\"")
+	}
 	add("rtspAddress: %s", p.addr(pRTSP))
 	add("rtspsAddress: %s", p.addr(pRTSPS))
 	add("rtpAddress: %s", p.addr(pRTP))
@@ -129,7 +133,11 @@ func workerConf(p Ports, dir, cert, key string, moq bool) string {
 	add("rtspServerCert: %s", cert)
 	add("rtspAuthMethods: [basic, digest]")
 	add("rtmp: yes")
-	add("rtmpEncryption: optional")
+	if tlsOn {
+		add("rtmpEncryption: optional")
+	} else {
+		add("rtmpEncryption: \"no\"")
+	}
 	add("rtmpAddress: %s", p.addr(pRTMP))
 	add("rtmpsAddress: %s", p.addr(pRTMPS))
 	add("rtmpServerKey: %s", key)
@@ -163,7 +171,7 @@ func workerConf(p Ports, dir, cert, key string, moq bool) string {
 
 // workerMain never returns normally: it serves until it is killed (or until the server code kills the process,
 // which is what the driver is looking for).
-func workerMain(base int, dir string, moq bool, memLimitMB int) {
+func workerMain(base int, dir string, moq bool, tlsOn bool, memLimitMB int) {
 	if memLimitMB > 0 {
 		lim := uint64(memLimitMB) << 20
 		_ = syscall.Setrlimit(syscall.RLIMIT_AS, &syscall.Rlimit{Cur: lim, Max: lim})
@@ -175,7 +183,7 @@ func workerMain(base int, dir string, moq bool, memLimitMB int) {
 		os.Exit(3)
 	}
 	cf := filepath.Join(dir, "mediamtx.yml")
-	if err = os.WriteFile(cf, []byte(workerConf(p, dir, cert, key, moq)), 0o600); err != nil {
+	if err = os.WriteFile(cf, []byte(workerConf(p, dir, cert, key, moq && tlsOn, tlsOn)), 0o600); err != nil {
 		fmt.Println("WORKER-STARTFAIL conf:", err)
 		os.Exit(3)
 	}
@@ -183,7 +191,7 @@ func workerMain(base int, dir string, moq bool, memLimitMB int) {
 		fmt.Println("WORKER-STARTFAIL chdir:", err)
 		os.Exit(3)
 	}
-	c, ok := core.New([]string{cf})
+	c, ok := core.VerifC35New(cf)
 	if !ok {
 		fmt.Println("WORKER-STARTFAIL core.New")
 		os.Exit(3)
